@@ -64,4 +64,8 @@ Section NPNum.
   Definition ofnat (n : nat) : t := oofZ O (Z.of_nat n).
   Definition nn_take_rows (idx : list nat) (D : mat) : mat := map (fun i => nth i D []) idx.
   Definition nn_sum_cols (n : nat) (A : mat) : vec := fold_right vadd (vzero n) A.
+  (* A.ravel() (row-major) and np.einsum('ij,ik->jk', X, Y) = sum_i outer(X_i, Y_i) (a d x d matrix; zeros for no rows) *)
+  Definition nn_ravel (A : mat) : vec := concat A.
+  Definition nn_einsum_ij_ik_jk (d : nat) (X Y : mat) : mat :=
+    fold_right (fun xy acc => madd (outer (fst xy) (snd xy)) acc) (mzero d d) (combine X Y).
 End NPNum.
